@@ -233,7 +233,13 @@ def handle (cs : Case) (line : String) : Case × String :=
     match lo.toNat?, hi.toNat?, t.toNat?, parseInt? a, parseInt? b with
     | some lo, some hi, some t, some a, some b =>
       match parseEv t name a b with
-      | some e => ({ cs with evs := cs.evs.push ⟨lo, hi, t, e, line⟩ }, "ok")
+      | some e =>
+        -- the commit steps of a session are their own actor: after a plain drop they run in a spawned task,
+        -- concurrently with the owner's next operations (the model orders them through the session's pc)
+        let actor := match e with
+          | .cPropagate _ | .cSubmit _ | .cRel _ => t + 1000000
+          | _ => t
+        ({ cs with evs := cs.evs.push ⟨lo, hi, actor, e, line⟩ }, "ok")
       | none => ({ cs with bad := true }, "bad-op")
     | _, _, _, _, _ => ({ cs with bad := true }, "bad-op")
   | ["end"] => ({}, verdict cs)
